@@ -280,6 +280,7 @@ float_case_impl!(float_f32_u16_12, f32, u16, 12, true);
 float_case_impl!(float_f32_u16_16, f32, u16, 16, true);
 float_case_impl!(float_f32_u32_24, f32, u32, 24, false);
 float_case_impl!(float_f32_u32_32, f32, u32, 32, false);
+float_case_impl!(float_f64_u8_2, f64, u8, 2, true);
 float_case_impl!(float_f64_u8_3, f64, u8, 3, true);
 float_case_impl!(float_f64_u8_8, f64, u8, 8, true);
 float_case_impl!(float_f64_u16_12, f64, u16, 12, true);
@@ -314,7 +315,18 @@ pub fn float_decode(offs: &[u64], nletters: usize, norms: usize, mut i: u64) -> 
     (letters, norm)
 }
 
-/// `part` = "<F>/<Pr>/<P>/<nletters>/<maxlen>/<norms>"
+/// optional 7th field of a float part: a sub-alphabet (indices into the float alphabets) for LONG tables
+/// at tiny precisions, where the number of symbols exceeds 2^PRECISION
+fn alphabet_map(f: &[&str], nletters: usize) -> Vec<usize> {
+    match f.get(6).copied() {
+        None => (0..nletters).collect(),
+        Some("s3") => vec![0, 10, 12],
+        Some("s2") => vec![0, 10],
+        Some(other) => panic!("HARNESS: unknown sub-alphabet {other}"),
+    }
+}
+
+/// `part` = "<F>/<Pr>/<P>/<nletters>/<maxlen>/<norms>[/<sub-alphabet>]"
 pub fn float_part_run(part: &str, from: u64, to: u64, want: &str, sink: &mut ChildSink) {
     let f: Vec<&str> = part.split('/').collect();
     let key = format!("{}/{}/{}", f[0], f[1], f[2]);
@@ -324,9 +336,11 @@ pub fn float_part_run(part: &str, from: u64, to: u64, want: &str, sink: &mut Chi
     let (offs, _) = float_space(nletters, maxlen, norms);
     let a64 = float_alphabet_f64();
     let a32 = float_alphabet_f32();
+    let amap = alphabet_map(&f, nletters);
     for i in from..to {
         sink.begin_case(i);
         let (letters, norm) = float_decode(&offs, nletters, norms, i);
+        let letters: Vec<usize> = letters.into_iter().map(|k| amap[k]).collect();
         let mut out = vec![];
         {
             let mut c = Case { out: &mut out, sink };
@@ -336,7 +350,7 @@ pub fn float_part_run(part: &str, from: u64, to: u64, want: &str, sink: &mut Chi
             match key.as_str() {
                 "f32/u8/4" => go32!(float_f32_u8_4), "f32/u8/8" => go32!(float_f32_u8_8), "f32/u16/12" => go32!(float_f32_u16_12),
                 "f32/u16/16" => go32!(float_f32_u16_16), "f32/u32/24" => go32!(float_f32_u32_24), "f32/u32/32" => go32!(float_f32_u32_32),
-                "f64/u8/3" => go64!(float_f64_u8_3), "f64/u8/8" => go64!(float_f64_u8_8), "f64/u16/12" => go64!(float_f64_u16_12),
+                "f64/u8/2" => go64!(float_f64_u8_2), "f64/u8/3" => go64!(float_f64_u8_3), "f64/u8/8" => go64!(float_f64_u8_8), "f64/u16/12" => go64!(float_f64_u16_12),
                 "f64/u16/16" => go64!(float_f64_u16_16), "f64/u32/24" => go64!(float_f64_u32_24), "f64/u32/32" => go64!(float_f64_u32_32),
                 other => panic!("HARNESS: unknown float part {other}"),
             }
@@ -358,6 +372,8 @@ pub fn float_case_is_valid_input(part: &str, i: u64) -> (bool, String) {
     let norms: usize = f[5].parse().unwrap();
     let (offs, _) = float_space(nletters, maxlen, norms);
     let (letters, norm) = float_decode(&offs, nletters, norms, i);
+    let amap = alphabet_map(&f, nletters);
+    let letters: Vec<usize> = letters.into_iter().map(|k| amap[k]).collect();
     let desc = if f[0] == "f32" {
         let a = float_alphabet_f32();
         format!("{:?} norm {:?}", letters.iter().map(|&k| a[k]).collect::<Vec<_>>(), NORMS[norm])
